@@ -138,7 +138,7 @@ def _same_result(a, b):
     return True
 
 
-def check_trace(o, events, n_workers, sjwd, kind, exc=None, busy_probe=None):
+def check_trace(o, events, n_workers, sjwd, kind, exc=None, busy_probe=None, failure_must_be_notified=False):
     """The offline automaton. Returns the signature list."""
     state, runs, added, n_results_in_run = {}, {}, set(), {}
     occupied = set()
@@ -157,6 +157,7 @@ def check_trace(o, events, n_workers, sjwd, kind, exc=None, busy_probe=None):
     sig = []
     had_pause = set()
     job_ended = {}         # trial -> [status, polls since the job of its current run ended by itself]
+    errored = set()        # trials with on_trial_error in the current batch
 
     stop = [False]
 
@@ -183,6 +184,15 @@ def check_trace(o, events, n_workers, sjwd, kind, exc=None, busy_probe=None):
                 V("end_notification", f"no_end_notification_for_{st}_trial", trial=tid)
             if st == "stopped" and state.get(tid) == "running" and tid not in batch_decided:
                 V("end_notification", "no_end_notification_for_externally_stopped_trial", trial=tid)
+        if failure_must_be_notified:
+            # C13: 'the scheduler is notified once per failure' -- also when a STOP / PAUSE decision for the same run was taken
+            # in this poll (then on_trial_remove alone does not tell it that the job failed)
+            for tid, st in batch_status.items():
+                if st == "failed":
+                    o.count("decided:failed_status_notified")
+                    if tid not in errored:
+                        V("failure_notified", "failed_job_status_without_on_trial_error" + (":decision_in_same_poll" if tid in batch_decided else ""), trial=tid)
+        errored.clear()
         for tid, n in ended.items():
             o.count("decided:end_notifications")
             if n > 1:
@@ -354,6 +364,7 @@ def check_trace(o, events, n_workers, sjwd, kind, exc=None, busy_probe=None):
             sig.append(("C", tid))
         elif k == "s.on_trial_error.call":
             tid = pl["trial_id"]
+            errored.add(tid)
             ended[tid] = ended.get(tid, 0) + 1
             if batch_status.get(tid) not in ("failed", "stopped"):
                 V("end_notification", f"on_trial_error_for_status_{batch_status.get(tid)}", trial=tid)
